@@ -252,6 +252,28 @@ fn collections(acc: &mut Acc, max_len: usize) {
             }
         }
     }
+    // moderate size: 100 elements / keys with one non-convertible element at each of several positions
+    for bad_at in [None, Some(0usize), Some(49), Some(50), Some(99)] {
+        let elems: Vec<RV> = (0..100).map(|i| if Some(i) == bad_at { RV::Int(200) } else { RV::Int((i as i128) - 50) }).collect();
+        let list = RV::List(elems.clone()).to_value();
+        let map = RV::Map(elems.iter().enumerate().map(|(i, v)| (format!("k{i:03}"), v.clone())).collect()).to_value();
+        acc.count("executions", 3);
+        let want: Result<Vec<i8>, ()> = elems.iter().map(|e| elem_i8(e).map_err(|_| ())).collect();
+        match (catch(|| Vec::<i8>::try_from(list.clone())), &want) {
+            (Ok(Ok(g)), Ok(w)) if g == *w => {}
+            (Ok(Err(reval::Error::NumericOverflow(_))), Err(())) => {}
+            (other, _) => bad(acc, "vec-i8/long".into(), format!("Vec<i8> from 100 elements (bad at {bad_at:?}) = {:?}", other.map(|r| r.map(|v| v.len()).map_err(|e| format!("{e:?}"))))),
+        }
+        match (catch(|| BTreeMap::<String, i8>::try_from(map.clone())), &want) {
+            (Ok(Ok(g)), Ok(w)) if g.values().copied().collect::<Vec<_>>() == *w => {}
+            (Ok(Err(reval::Error::NumericOverflow(_))), Err(())) => {}
+            (other, _) => bad(acc, "btreemap-i8/long".into(), format!("BTreeMap<String,i8> from 100 entries (bad at {bad_at:?}) = {:?}", other.map(|r| r.map(|v| v.len()).map_err(|e| format!("{e:?}"))))),
+        }
+        match catch(|| Vec::<i128>::try_from(list.clone())) {
+            Ok(Ok(g)) if g.iter().map(|x| RV::Int(*x)).collect::<Vec<_>>() == elems => {}
+            other => bad(acc, "vec-i128/long".into(), format!("Vec<i128> from 100 elements = {:?}", other.map(|r| r.map(|v| v.len()).map_err(|e| format!("{e:?}"))))),
+        }
+    }
     // non-collection sources
     for src in sources() {
         let val = src.to_value();
